@@ -53,7 +53,8 @@ class Rec:
         self.callno = 0
         self.mode, self.workers = mode, workers
         self.db = db
-        costs = [{'name': 'f_%d' % (j + 1), 'criteria': self.criteria[j]} for j in range(m)]
+        # a cost declared without 'criteria' (None here) is minimised by default
+        costs = [dict({'name': 'f_%d' % (j + 1)}, **({'criteria': self.criteria[j]} if self.criteria[j] else {})) for j in range(m)]
         self.problem = absx.make_problem(dim, bounds=self.bounds, costs=costs, evaluate=self._evaluate,
                                          constraints=self._constraints)
         if db:
@@ -136,14 +137,19 @@ class Rec:
         raise exc
 
     # ---- batches ------------------------------------------------------------------------------------------
-    def new_batch(self, vectors, pre=None, precisions=None):
+    def new_batch(self, vectors, pre=None, precisions=None, copies=None):
         """create the designs of a batch; pre[i] = True: already evaluated (through the real Job) before recording starts"""
         from artap.individual import Individual
         from artap.job import Job
         pre = pre or [False] * len(vectors)
         self.inds = []
         for i, vec in enumerate(vectors):
-            ind = Individual(list(vec))
+            if copies and copies.get(i) is not None and copies[i] < i:
+                # a design derived from another design of the batch the way the algorithms derive offspring: copy(), then a new vector
+                ind = self.inds[copies[i]].copy()
+                ind.vector = list(vec)
+            else:
+                ind = Individual(list(vec))
             if precisions:
                 ind.features["precision"] = precisions[i]
             self.inds.append(ind)
@@ -208,7 +214,7 @@ class Rec:
         """one `signed` event per evaluated design of the batch (C05: rounding, sign, marker)"""
         from artap.individual import Individual
         out = []
-        signs = [1 if c == "minimize" else -1 for c in self.criteria]
+        signs = [-1 if c == "maximize" else 1 for c in self.criteria]
         for i, ind in enumerate(self.inds):
             if ind.state != Individual.State.EVALUATED or self.pre[i]:
                 continue
